@@ -389,6 +389,14 @@ impl Kernel for PassKernel {
             self.in_child.set(true);
             return r;
         }
+        if n == nr::SOCKET && a[0] == libc::AF_INET as usize && (r as isize) >= 0 {
+            // the simulated network has no TIME_WAIT: a port used by an earlier run can be bound
+            // again at once (the operations under test create their sockets themselves)
+            let one: i32 = 1;
+            unsafe {
+                libc::setsockopt(r as i32, libc::SOL_SOCKET, libc::SO_REUSEADDR, std::ptr::from_ref(&one).cast(), 4);
+            }
+        }
         if let Some(s) = sim() {
             s.trace.ev(|| format!("call {idx} {}#{ord}({:#x},{:#x},{:#x}) -> {}", sys_name(n), a[0], a[1], a[2], r as isize));
         }
